@@ -48,8 +48,10 @@ PROPS = {
    "all cut sets of short documents, every two-way cut and 1-byte chunking of longer ones, every byte in every parser "
    "context, valid and mutated, with stack-depth and buffer-length hooks after every chunk; oracle: events and verdict "
    "class equal.",
-   "Kernel-checked in full for the CBOR parser; UBJSON and JSON by mirror + correspondence + oracle (collect law proved for UBJSON's buffer).",
-   partial="UBJSON and JSON parsers: no chunk-independence theorem yet (mirror + correspondence + oracle)"),
+   "Kernel-checked in full for the CBOR parser and the JSON parser (PropsJson.C02 json_writeChunks_eq_parse, json_chunk_independent: "
+   "same verdict and events for every byte string, chunking and visitor fault index); UBJSON by mirror + correspondence + oracle "
+   "(collect law proved for UBJSON's buffer).",
+   partial="UBJSON parser: no chunk-independence theorem yet (mirror + correspondence + oracle)"),
  "C03": P("DESIGN.md 7 C03",
    "Lean 4 proof (CBOR parser: no panic from any state; no hang with an explicit linear step bound; truncation is an error; exact acceptance) + differential correspondence incl. every byte in every parser context",
    "parse_no_panic / writeChunks_no_panic / feedUntil_no_panic: the CBOR parser never panics on ANY bytes, ANY chunking, "
@@ -61,9 +63,11 @@ PROPS = {
    "Correspondence: outcome class (ok/err/panic/hang) on exhaustive <=2-byte inputs (<=3 thorough), every byte value in "
    "every parser context followed by 0/1/2/9 filler bytes (whole and byte-wise), all prefixes, mutations, tampered lengths, "
    "pull decoders; oracle: no panic/hang, truncated input (per the reference decoders) is an error, events proportional to input.",
-   "Kernel-checked for the CBOR parser in full (no panic, linear termination, truncation, exact acceptance); UBJSON and JSON by "
-   "mirror (fuel-instrumented) + correspondence + oracle; wall-clock and heap are runtime facts (partial by nature).",
-   partial="UBJSON and JSON parsers: no theorem yet; UBJSON payload-free counts are a known finding; wall-clock time and real heap cannot be exhibited by the model"),
+   "Kernel-checked for the CBOR parser in full (no panic, linear termination, truncation, exact acceptance), for the JSON parser "
+   "in full (PropsJson.C03: no panic, 2|b|+2 iterations, unquote terminates, truncation of every grammatical text) and for the "
+   "UBJSON parser (PropsUbjP.C03: no panic from every invariant state; no spinning: every iteration consumes input or delivers "
+   "an event); wall-clock and heap are runtime facts (partial by nature).",
+   partial="UBJSON: an a-priori bound on the number of events is not proved (a linear one is false: known finding on payload-free counts); UBJSON truncation clause by oracle; wall-clock time and real heap cannot be exhibited by the model"),
  "C04": P("DESIGN.md 7 C04",
    "Lean 4 proof (integer-literal layer exact, never wraps) + differential correspondence + RFC 8259 reference decoder as oracle",
    "int_literal_exact_partial / parseUint_exact: every integer literal is reported with exactly its value as int64/uint64 "
@@ -83,12 +87,16 @@ PROPS = {
    assumptions=["the mirror is the code only as far as the differential correspondence shows",
                 "RFC 7049 reading of DESIGN appendix A.4 (bytes as element-wise arrays, undefined as null)"]),
  "C06": P("DESIGN.md 7 C06",
-   "Lean 4 proof (fixed-width integer layer) + differential correspondence + draft-12 reference decoder as oracle",
-   "int_roundtrip_partial: every integer of every fixed width is read back exactly as written over the whole range. "
+   "Lean 4 proof (the UBJSON parser refines the draft-12 grammar: every stream of well-formed items is accepted with exactly its events and value) + differential correspondence + draft-12 reference decoder as oracle",
+   "PropsUbjP.C06: parse_refines_events / parse_refines_value / parse_refines_one / feedUntil_refines / vcost_linear over the grammar "
+   "SF.Ubjson.Syn.Item (every scalar marker, strings and H numbers with lengths in any integer marker, plain / counted / typed "
+   "arrays and objects, nested typed containers, no-ops); int_roundtrip_partial, twos_read_*: every integer of every fixed "
+   "width over the whole range. "
    "Correspondence: op `parse ubj` on foreign-encoder documents (all length markers, counted/typed containers nested, "
    "payload-free types, no-ops); oracle: SF/Ubjson/Cst.lean.",
-   "Integer layer proved (partial); container state machine by mirror + correspondence + reference-decoder oracle.",
-   partial="container/header state machine not yet proved against the grammar"),
+   "Kernel-checked in full against the grammar of SF/Proofs/UbjItem.lean (a fuel side condition of the MODEL only: at most 10^6 "
+   "payload-free elements per typed array, cf. the known finding); refusal of what is outside the grammar: reference-decoder oracle.",
+   partial="the converse (everything accepted is grammatical) is decided by the reference-decoder oracle, not proved"),
  "C07": P("DESIGN.md 7 C07",
    "Lean 4 proof (encoder output is the wire form of a well-formed item the reference decoder reads back) + differential correspondence",
    "cbor_output_valid: for every well-formed stream the CBOR encoder's bytes are `wire` of an `ok` item with the stream's "
@@ -116,8 +124,9 @@ PROPS = {
    "Lean 4 proof (contract automaton WF on event trees; CBOR parser; adapters) + WF monitor as oracle on every stream",
    "tree_events_wf (generic), cbor_parser_wf (every accepted supported stream), expand_array_wf / expand_map_wf (all 29 "
    "adapter expansions). Oracle: WF evaluated on every event stream any parser delivers.",
-   "Kernel-checked for the generic layer, the CBOR parser and the adapters; the other parsers and Fold by mirror/oracle.",
-   partial="Fold (gotype) and UBJSON/JSON parser instances not yet proved"),
+   "Kernel-checked for the generic layer, the CBOR parser, the UBJSON parser (PropsUbjP.C09 ubj_parser_wf) and the adapters; the "
+   "JSON parser and Fold by mirror + WF oracle.",
+   partial="Fold (gotype) and JSON parser instances not yet proved"),
  "C10": P("DESIGN.md 7 C10",
    "Lean 4 proof (native typed methods = expansion, same bytes and state; byte slices same value) + differential correspondence",
    "cbor_ext_same: step s x = execEvs s x.expand for every typed array (except byte slices), typed map and by-reference "
